@@ -5,6 +5,7 @@ CONSTANTS
   Urgent = TRUE
   Guard = TRUE
   SS = TRUE
+  Exp = {1, 2}
   Pushes = FALSE
 INVARIANTS TypeOK C08 C11_First
 CHECK_DEADLOCK FALSE
